@@ -204,7 +204,7 @@ pub const EOF: Token = Token {
 #[derive(Debug, Default)]
 pub struct Lexer {
     loc: Loc,
-    concatenated_strings: String,
+    concatenated_strings: Option<String>,
 }
 
 impl Lexer {
@@ -223,8 +223,8 @@ impl Lexer {
         let mut string_literals: Vec<&str> = Vec::new();
         let mut caps = LEX_RE.capture_locations();
 
-        if !self.concatenated_strings.is_empty() {
-            string_literals.push(&self.concatenated_strings);
+        if let Some(pending) = &self.concatenated_strings {
+            string_literals.push(pending);
         }
 
         self.loc = Loc::new(lno, pos + 1);
@@ -282,9 +282,9 @@ impl Lexer {
         }
 
         self.concatenated_strings = if string_literals.is_empty() {
-            String::new()
+            None
         } else {
-            string_literals.concat()
+            Some(string_literals.concat())
         };
 
         self.loc = Loc::new(lno, pos + 1);
